@@ -72,13 +72,15 @@ class Candidate:
     def dominates(self, other):
         if self.priority != other.priority:
             return self.priority > other.priority
-        elif self.types != other.types:
-            # The specificity levels only give a linear extension of the type
-            # order, so unrelated types must be told apart with typeorder.
-            return all(
-                typeorder(t1, t2) in (Order.LESS, Order.SAME)
-                for t1, t2 in zip(self.types, other.types)
-            )
+        # The specificity levels only give a linear extension of the type
+        # order, so unrelated types must be told apart with typeorder.
+        orders = {
+            typeorder(t1, t2)
+            for t1, t2 in zip(self.types, other.types)
+            if t1 != t2
+        }
+        if orders - {Order.SAME}:
+            return not (orders - {Order.LESS, Order.SAME})
         elif self.signature == other.signature:
             # Only a method that was replaced by one with the same signature
             # is pushed down by its tiebreak
